@@ -233,6 +233,9 @@ func (s *chaos) build() {
 		es := fmt.Sprintf("%d", 500+r.n(40))
 		if r.chance(1, 6) {
 			es = "nil" // recording "no error"
+		} else if r.chance(1, 8) {
+			// an error whose value is the zero value of its type: as much an error as any other
+			es = r.pick([]string{"0", "900001", "900002", "900003"})
 		}
 		switch r.n(5) {
 		case 4:
@@ -336,6 +339,9 @@ func (s *chaos) callbacks() {
 		cb = fmt.Sprintf("set:%d:%s:%s", id, key, val)
 	default:
 		cb = fmt.Sprintf("fail:%d:%d", id, 100000+id*10+r.n(5))
+		if r.chance(1, 8) {
+			cb = fmt.Sprintf("fail:%d:%s", id, r.pick([]string{"0", "900001", "900002", "900003"}))
+		}
 	}
 	// the table through which the registration is made owns nothing: any table will do for any owner
 	g.do(fmt.Sprintf("regcb %s %s %s %s %s", t, o, when, target, cb))
